@@ -5,6 +5,12 @@ import LdkModel.Model.MsgSchemasHand
 import LdkModel.Generated.WireTypes
 import LdkModel.Model.MsgCustom
 import LdkModel.Proofs.MsgCustom
+import LdkModel.Proofs.CodecHzd
+import LdkModel.Proofs.CodecTrunc
+import LdkModel.Model.Int64
+import LdkModel.Proofs.Utf8
+import LdkModel.Model.MsgBitcoin
+import LdkModel.Proofs.MsgBitcoin
 /-!
   C13 — peer messages round-trip through the wire format and decoding is total.
 
@@ -131,6 +137,38 @@ theorem reencode_stable_partial (s : Schema) (b : Bytes) (v : MsgVal) (hwf : s.w
 
 theorem all_schemas_plain : ∀ s ∈ generatedSchemas, s.plain = true := by decide
 
+/-- UNCONDITIONAL form of `decode_valid_partial` (the `hzd` case of the field-level spec is `Proofs.CodecHzd.hzd_decode_spec`): for EVERY
+    well-formed schema — HighZeroBytesDroppedBigSize fields included — decoding only ever returns values of the schema -/
+theorem decode_valid (s : Schema) (b : Bytes) (v : MsgVal) (hwf : s.wf = true) (h : s.decode b = .ok v) : v.valid s = true :=
+  schema_decode_valid_all s b v hwf h
+
+/-- UNCONDITIONAL form of `reencode_stable_partial`: for every well-formed schema and every byte string, re-encoding a successfully
+    decoded message yields bytes that decode to the same message -/
+theorem reencode_stable_any_schema (s : Schema) (b : Bytes) (v : MsgVal) (hwf : s.wf = true) (h : s.decode b = .ok v) :
+    s.decode (s.encode v) = .ok v := codec_roundtrip s v hwf (decode_valid s b v hwf h)
+
+/-- field level, every field type (no `plain` restriction): a successful decode returns a valid value whose encoding is exactly as
+    long as what was consumed -/
+theorem field_decode_valid (ty : FieldTy) (b : Bytes) (v : Val) (r : Bytes) (hwf : ty.wf = true) (h : ty.decode b = .ok (v, r)) :
+    ty.valid v = true ∧ b.length = (ty.encode v).length + r.length := field_decode_spec_all ty b v r hwf h
+
+/-- which HighZeroBytesDropped inputs are accepted: at most n bytes reach the value, the first of them non-zero (or none at all); what
+    is accepted IS the canonical (leading-zero-free) encoding of the value returned -/
+theorem hzd_accepts_only_canonical (n : Nat) (l : Bytes) (hl : l.length ≤ n) (hh : l.head? ≠ some 0) :
+    (FieldTy.hzd n).decode l = .ok (.nat (beDecode l), []) ∧ (FieldTy.hzd n).encode (.nat (beDecode l)) = l := by
+  refine ⟨?_, hzd_encode_beDecode l n hl hh⟩
+  cases l with
+  | nil => simp [FieldTy.decode, beDecode]
+  | cons x xs =>
+    have hk : min n (x :: xs).length = (x :: xs).length := Nat.min_eq_right hl
+    have hx : x ≠ 0 := by intro h0; apply hh; simp [h0]
+    simp only [FieldTy.decode, hk]
+    simp [hx]
+example : (FieldTy.hzd 8).decode [0, 1] = .error .InvalidValue := by decide
+example : schema_StartBatch.plain = true ∧
+    (⟨"x", [], [], [⟨1, "amt", .hzd 8, .option⟩]⟩ : Schema).plain = false ∧ (⟨"x", [], [], [⟨1, "amt", .hzd 8, .option⟩]⟩ : Schema).wf = true := by decide
+example : (⟨"x", [], [], [⟨1, "amt", .hzd 8, .option⟩]⟩ : Schema).decode [1, 2, 1, 0] = .ok ⟨[], [some (.nat 256)]⟩ := by decide
+
 /-- re-encode stability for every message schema translated from msgs.rs, for every byte string -/
 theorem reencode_stable (s : Schema) (hs : s ∈ generatedSchemas) (b : Bytes) (v : MsgVal)
     (h : s.decode b = .ok v) : s.decode (s.encode v) = .ok v :=
@@ -225,6 +263,56 @@ theorem unknown_even_rejected_msg (s : Schema) (fx : List Val) (r1 r2 : List (Na
   obtain ⟨e, he⟩ := unknown_even_rejected s.tlvs r1 r2 t val hf heven hunk
   exact ⟨e, by rw [decode_after_fixed s fx _ hwf hfx, he]⟩
 example : schema_StartBatch.decode (List.replicate 32 7 ++ [0, 3] ++ rawEncode [(2, [])]) = .error .UnknownRequiredFeature := by decide
+
+/-! ## truncation of valid encodings (Proofs/CodecTrunc.lean): every well-formed schema, every valid value, EVERY cut point -/
+
+/-- field level: a strict prefix of the encoding of a valid value never decodes to an error other than ShortRead; a self-delimiting
+    type answers ShortRead (a read-to-end type — hzd, restBytes, chunks — may accept the prefix: it IS an encoding) -/
+theorem field_truncation (ty : FieldTy) (v : Val) (p q : Bytes) (hwf : ty.wf = true) (hv : ty.valid v = true)
+    (h : ty.encode v = p ++ q) (hq : q ≠ []) :
+    (ty.decode p = .error .ShortRead ∨ ∃ v' r', ty.decode p = .ok (v', r')) ∧
+    (ty.selfDelim = true → ty.decode p = .error .ShortRead) := field_trunc ty v p q hwf hv h hq
+example : (FieldTy.vec (.uint 2)).decode [0, 2, 0, 7, 0] = .error .ShortRead := by decide
+example : (FieldTy.hzd 8).decode [1] = .ok (.nat 1, []) := by decide   -- strict prefix of the encoding [1, 0] of 256
+
+/-- a cut inside the fixed part: ShortRead -/
+theorem truncation_in_fixed_part (s : Schema) (v : MsgVal) (hwf : s.wf = true) (hv : v.valid s = true) (p q : Bytes)
+    (h : encodeFixed s.fixed v.fixed = p ++ q) (hq : q ≠ []) : s.decode p = .error .ShortRead :=
+  (trunc_fixed_part s v hwf hv p q h hq).2
+
+/-- a cut inside the k-th TLV record (inside its type, between type and length, inside the length, inside the value), the earlier
+    records intact: ShortRead -/
+theorem truncation_inside_record (s : Schema) (v : MsgVal) (hwf : s.wf = true) (hv : v.valid s = true) (k : Nat)
+    (f : TlvField) (x : Val) (hf : s.tlvs[k]? = some f) (hx : v.tlvs[k]? = some (some x)) (p' q' : Bytes)
+    (hcut : BigSize.encode f.typ ++ (BigSize.encode (f.ty.encode x).length ++ f.ty.encode x) = p' ++ q')
+    (hp : p' ≠ []) (hq : q' ≠ []) :
+    s.decode (boundaryCut s v k ++ p') = .error .ShortRead := trunc_inside_record s v hwf hv k f x hf hx p' q' hcut hp hq
+
+/-- a cut exactly between two records (`boundaryCut s v k` = fixed part ++ the records of the first k declared fields): the message
+    decodes with the later optional records absent — that is what the format allows — unless a REQUIRED record was cut off
+    (`_check_missing_tlv!` ⇒ InvalidValue) -/
+theorem truncation_at_record_boundary (s : Schema) (v : MsgVal) (hwf : s.wf = true) (hv : v.valid s = true) (k : Nat) :
+    s.decode (boundaryCut s v k) =
+      if reqDropped s.tlvs v.tlvs k then .error .InvalidValue else .ok ⟨v.fixed, maskAfter k v.tlvs⟩ :=
+  trunc_at_boundary s v hwf hv k
+
+/-- ALL cut points: every prefix of a valid encoding either is a record-boundary cut — whose result is given above, never ShortRead —
+    or decodes to ShortRead.  No prefix decodes to any other error, and no prefix that ends inside a field or record is accepted. -/
+theorem truncation_classified (s : Schema) (v : MsgVal) (hwf : s.wf = true) (hv : v.valid s = true) (p q : Bytes)
+    (h : s.encode v = p ++ q) :
+    (s.decode p = .error .ShortRead ∧ ¬ ∃ k, p = boundaryCut s v k) ∨
+    ∃ k, p = boundaryCut s v k ∧
+      s.decode p = if reqDropped s.tlvs v.tlvs k then .error .InvalidValue else .ok ⟨v.fixed, maskAfter k v.tlvs⟩ := by
+  rcases trunc_decode_result s v hwf hv p q h with h1 | h2
+  · exact .inl ⟨h1, fun hk => trunc_cases_exclusive s v hwf hv p ⟨h1, hk⟩⟩
+  · exact .inr h2
+-- non-vacuity on StartBatch (32-byte channel id, u16 batch size, optional TLV 1 = u16): cut in the fixed part, at the boundary, in the record
+example : schema_StartBatch.encode ⟨[.bytes (List.replicate 32 7), .nat 3], [some (.nat 132)]⟩ = List.replicate 32 7 ++ [0, 3, 1, 2, 0, 132] := by decide
+example : schema_StartBatch.decode (List.replicate 32 7 ++ [0]) = .error .ShortRead := by decide
+example : schema_StartBatch.decode (List.replicate 32 7 ++ [0, 3]) = .ok ⟨[.bytes (List.replicate 32 7), .nat 3], [none]⟩ := by decide
+example : boundaryCut schema_StartBatch ⟨[.bytes (List.replicate 32 7), .nat 3], [some (.nat 132)]⟩ 0 = List.replicate 32 7 ++ [0, 3] := by decide
+example : schema_StartBatch.decode (List.replicate 32 7 ++ [0, 3, 1]) = .error .ShortRead := by decide
+example : schema_StartBatch.decode (List.replicate 32 7 ++ [0, 3, 1, 2, 0]) = .error .ShortRead := by decide
 
 /-! ## totality -/
 
@@ -380,6 +468,51 @@ theorem pong_roundtrip (byteslen : Nat) (hb : byteslen < 2 ^ 16) (rest : Bytes) 
 example : Hand.decodePing [0, 5, 0, 2, 9, 9, 1] = .ok (5, 2) := by decide   -- padding content ignored, trailing byte not read
 example : Hand.decodePing [0, 5, 0, 3, 9, 9] = .error .ShortRead := by decide
 example : Hand.encodePing 5 2 = [0, 5, 0, 2, 0, 0] := by decide
+
+/-! ## UTF-8 (ErrorMessage / WarningMessage data) and i64 (Proofs/Utf8.lean) -/
+
+/-- the validation automaton the ErrorMessage / WarningMessage decoders run accepts EXACTLY the well-formed UTF-8 byte strings of the
+    Unicode Standard, Table 3-7 (`WellFormedUtf8`: a declarative inductive definition, one constructor per row) — all byte strings -/
+theorem utf8_valid_iff_well_formed (b : Bytes) : Hand.validUtf8 b = true ↔ WellFormedUtf8 b := validUtf8_iff b
+
+/-- so the decoder's answer on a well-framed ErrorMessage is decided by the declarative spec -/
+theorem error_msg_accepts_iff_well_formed (cid data rest : Bytes) (hc : cid.length = 32) (hd : data.length < 2 ^ 16) :
+    Hand.decodeErrorMsg (Hand.encodeErrorMsg cid data ++ rest) = .ok (cid, data) ↔ WellFormedUtf8 data := by
+  constructor
+  · intro h
+    rw [← utf8_valid_iff_well_formed]
+    cases hu : Hand.validUtf8 data with
+    | true => rfl
+    | false =>
+      exfalso
+      have h256 : data.length < 256 ^ 2 := by omega
+      have e1 : (cid ++ (beEncode 2 data.length ++ data) ++ rest).drop 32 = beEncode 2 data.length ++ (data ++ rest) := by
+        rw [List.append_assoc, ← hc, List.drop_left' rfl]; simp [List.append_assoc]
+      simp only [Hand.decodeErrorMsg, Hand.encodeErrorMsg, e1, readUint_encode, Nat.mod_eq_of_lt h256] at h
+      simp only [List.length_append, List.take_left' rfl, hu] at h
+      rw [if_neg (by omega), if_neg (by omega)] at h
+      simp at h
+  · intro h; exact error_msg_roundtrip cid data rest hc hd ((utf8_valid_iff_well_formed data).2 h)
+example : WellFormedUtf8 [0xc3, 0xa9] := (utf8_valid_iff_well_formed _).1 (by decide)
+example : ¬ WellFormedUtf8 [0xed, 0xa0, 0x80] := fun h => absurd ((utf8_valid_iff_well_formed _).2 h) (by decide)   -- a surrogate
+
+/-- i64 fields (`funding_contribution_satoshis`, …) are two's complement: every i64 round-trips through its 8 big-endian bytes, and a
+    successful read consumed exactly the encoding of the in-range integer it returns (the schemas carry the same 8 bytes as `.uint 8`) -/
+theorem i64_two_complement_roundtrip (i : Int) (h : -2 ^ 63 ≤ i ∧ i < 2 ^ 63) (r : Bytes) : readI64 (encodeI64 i ++ r) = .ok (i, r) :=
+  i64_roundtrip i h r
+theorem i64_read_canonical (b r : Bytes) (i : Int) (h : readI64 b = .ok (i, r)) : (-2 ^ 63 ≤ i ∧ i < 2 ^ 63) ∧ b = encodeI64 i ++ r :=
+  readI64_canonical h
+/-- … and it is the same bytes the schema-level `.uint 8` field carries -/
+theorem i64_is_uint8_pattern (b : Bytes) : readI64 b = (match (FieldTy.uint 8).decode b with
+    | .error e => .error e
+    | .ok (.nat n, r) => .ok (i64OfBits n, r)
+    | .ok (_, r) => .ok (0, r)) := by
+  simp only [readI64, FieldTy.decode]
+  cases readUint 8 b with
+  | error e => rfl
+  | ok p => rfl
+example : readI64 [0xff, 0xff, 0xff, 0xff, 0xff, 0xff, 0xff, 0xfe] = .ok (-2, []) := by decide
+example : encodeI64 (-1) = List.replicate 8 0xff := by decide
 
 /-! ## custom hand-written codecs (Model/MsgCustom.lean): SocketAddress, (Unsigned)NodeAnnouncement, QueryShortChannelIds, ReplyChannelRange
 
@@ -725,6 +858,167 @@ example : Custom.decodeOnionMsg ([2] ++ List.replicate 32 1 ++ [0, 67, 0, 2] ++ 
     .ok (⟨.bytes ([2] ++ List.replicate 32 1), [.nat 0, .bytes ([2] ++ List.replicate 32 1), .bytes [0xaa], .bytes (List.replicate 32 9)]⟩, [0xee]) := by decide
 example : Custom.decodeOnionMsg ([2] ++ List.replicate 32 1 ++ [0, 65, 0, 2] ++ List.replicate 32 1 ++ List.replicate 32 9) = .error .ShortRead := by decide
 
+/-! ## bitcoin consensus encodings and blinded paths (Model/MsgBitcoin.lean): TxAddInput, TxSignatures, RevokeAndACK
+
+  The constants and comparisons the decoders CALL (`Gen.btc*`) are extracted / translated on every run from the `bitcoin` crate the
+  harness is locked to and from util/ser.rs, ln/msgs.rs, blinded_path/mod.rs; the theorems are re-proved against them. -/
+
+/-- what the extracted constants have to say for the theorems below to mean what the comments say (by `decide` on the generated
+    definitions): CompactSize ranges contiguous and matching the non-minimality bounds, MAX_VEC_SIZE, the three TLV types, the
+    introduction-node first bytes.  Breaks when the crate or the source changes one of them. -/
+theorem btc_consts_spec :
+    btcMaxVecSize = 4000000 ∧ btcCs1Max + 1 = btcCs2Min ∧ btcCs2Max + 1 = btcCs4Min ∧ btcCs4Max + 1 = btcCs8Min ∧
+    btcCs1Max = 0xFC ∧ btcCs2Max = 0xFFFF ∧ btcCs4Max = 0xFFFFFFFF ∧
+    btcTxAddInputTlv = 0 ∧ btcTxSignaturesTlv = 0 ∧ btcRevokeAndAckTlv = 75537 ∧
+    (∀ t < 256, Btc.introWf [UInt8.ofNat t] = false) ∧
+    (List.range 256).filter btcIntroScid = [0, 1] ∧ (List.range 256).filter btcIntroNode = [2, 3] := by decide
+
+/-- the parts of the three messages that ARE ordinary schemas are well-formed and plain: every generic theorem above (TLV order, unknown
+    even / odd, framing, truncation, …) applies to what follows the prevtx of TxAddInput and to the TLV stream of TxSignatures -/
+theorem btc_rest_schemas_wf :
+    Btc.txAddInputRest.wf = true ∧ Btc.txAddInputRest.plain = true ∧ Btc.txSignaturesRest.wf = true ∧ Btc.txSignaturesRest.plain = true ∧
+    Custom.hdrOk Btc.txAddInputHeader = true ∧ Custom.hdrOk Btc.txSignaturesHeader = true ∧ Custom.hdrOk Btc.revokeAndAckHeader = true := by decide
+
+/-- CompactSize: every u64 round-trips; the decoder accepts only the minimal form; it fails only with ShortRead / InvalidValue -/
+theorem compact_size_roundtrip (n : Nat) (h : n < 2 ^ 64) (r : Bytes) :
+    Btc.CompactSize.decode (Btc.CompactSize.encode n ++ r) = .ok (n, r) := Btc.compactSize_roundtrip n h r
+theorem compact_size_minimal (b r : Bytes) (n : Nat) (h : Btc.CompactSize.decode b = .ok (n, r)) :
+    b = Btc.CompactSize.encode n ++ r ∧ n < 2 ^ 64 := Btc.compactSize_exact h
+theorem compact_size_errors (b : Bytes) (e : DecodeError) (h : Btc.CompactSize.decode b = .error e) :
+    e = .ShortRead ∨ e = .InvalidValue := Btc.compactSize_decode_error h
+example : Btc.CompactSize.decode [0xfd, 0xfc, 0x00] = .error .InvalidValue := by decide   -- non-minimal (little-endian 0x00fc)
+example : Btc.CompactSize.decode [0xfd, 0xfd, 0x00, 9] = .ok (253, [9]) := by decide
+example : Btc.CompactSize.decode [0xfe, 0, 0] = .error .ShortRead := by decide
+
+/-- Witness: round trip within the crate's limits (`witnessWf`: at most MAX_VEC_SIZE elements and content bytes) -/
+theorem witness_roundtrip (w : List Bytes) (r : Bytes) (h : Btc.witnessWf w = true) :
+    Btc.decodeWitness (Btc.encodeWitness w ++ r) = .ok (w, r) := Btc.witness_roundtrip w r h
+/-- … the decoder accepts ONLY canonical encodings of witnesses within the limits, and reads exactly their bytes -/
+theorem witness_decode_canonical (b r : Bytes) (w : List Bytes) (h : Btc.decodeWitness b = .ok (w, r)) :
+    b = Btc.encodeWitness w ++ r ∧ Btc.witnessWf w = true := Btc.witness_exact h
+/-- `Witness::size()` (what `Vec<Witness>` compares with the declared u16) IS the number of bytes the witness occupies -/
+theorem witness_size_is_encoded_length (w : List Bytes) : (Btc.encodeWitness w).length = Btc.witnessSize w :=
+  Btc.witness_size_is_encoded_length w
+/-- the crate's size limits: a declared element count above MAX_VEC_SIZE is rejected whatever follows; an element whose declared size
+    takes the running content total (`used`) above MAX_VEC_SIZE is rejected BEFORE a byte of it is looked at -/
+theorem witness_count_limit (n : Nat) (hn : n < 2 ^ 64) (h : btcMaxVecSize < n) (rest : Bytes) :
+    Btc.decodeWitness (Btc.CompactSize.encode n ++ rest) = .error .InvalidValue := Btc.witness_count_oversized n hn h rest
+theorem witness_element_limit (n used sz : Nat) (hsz : sz < 2 ^ 64) (h : btcMaxVecSize < used + sz + Btc.CompactSize.size sz) (rest : Bytes) :
+    Btc.decodeWitnessItems (n + 1) used (Btc.CompactSize.encode sz ++ rest) = .error .InvalidValue :=
+  Btc.witnessItems_oversized n used sz hsz h rest
+example : Btc.decodeWitness [2, 1, 0xaa, 0, 7] = .ok ([[0xaa], []], [7]) := by decide
+example : Btc.decodeWitness [2, 1, 0xaa] = .error .ShortRead := by decide
+example : Btc.decodeWitness [0xfe, 0x01, 0x09, 0x3d, 0x00] = .error .InvalidValue := by decide   -- 4 000 001 elements declared
+example : Btc.decodeWitness [0xfe, 0x00, 0x09, 0x3d, 0x00] = .error .ShortRead := by decide      -- 4 000 000: allowed, the input ends
+
+/-- Transaction: decode ∘ encode = id on every well-formed transaction (`Tx.wf`), whatever follows it -/
+theorem transaction_roundtrip (t : Btc.Tx) (h : t.wf = true) (r : Bytes) : Btc.decodeTx (Btc.encodeTx t ++ r) = .ok (t, r) :=
+  Btc.tx_roundtrip t h r
+/-- the decoder accepts ONLY canonical encodings of well-formed transactions (legacy form iff there is an input and every witness is
+    empty; marker / flag form with no input or with some non-empty witness), and what it consumed is exactly that encoding:
+    it never reads past the transaction, never drops a byte of it -/
+theorem transaction_decode_canonical (b r : Bytes) (t : Btc.Tx) (h : Btc.decodeTx b = .ok (t, r)) :
+    b = Btc.encodeTx t ++ r ∧ t.wf = true := Btc.tx_exact h
+theorem transaction_reencode_stable (b r : Bytes) (t : Btc.Tx) (h : Btc.decodeTx b = .ok (t, r)) :
+    Btc.decodeTx (Btc.encodeTx t) = .ok (t, []) := Btc.tx_reencode_stable h
+/-- no strict prefix of a transaction's encoding is accepted -/
+theorem transaction_truncated_rejected (t : Btc.Tx) (h : t.wf = true) (p q : Bytes) (he : Btc.encodeTx t = p ++ q) (hq : q ≠ []) :
+    ∃ e, Btc.decodeTx p = .error e := Btc.tx_strict_prefix_rejected t h p q he hq
+-- version 2, one input (txid 01…, vout 0, empty script, sequence ffffffff), no output, lock_time 0: legacy form
+example : Btc.decodeTx ([2, 0, 0, 0, 1] ++ List.replicate 32 1 ++ [0, 0, 0, 0, 0, 0xff, 0xff, 0xff, 0xff, 0, 0, 0, 0, 0, 0xee]) =
+    .ok (⟨2, [(⟨List.replicate 32 1, 0, [], 0xffffffff⟩, [])], [], 0⟩, [0xee]) := by decide
+-- the same input behind marker / flag with an EMPTY witness: "witness flag set but no witnesses present" — before lock_time is read
+example : Btc.decodeTx ([2, 0, 0, 0, 0, 1, 1] ++ List.replicate 32 1 ++ [0, 0, 0, 0, 0, 0xff, 0xff, 0xff, 0xff, 0, 0]) = .error .InvalidValue := by decide
+example : Btc.decodeTx ([2, 0, 0, 0, 0, 1, 1] ++ List.replicate 32 1 ++ [0, 0, 0, 0, 0, 0xff, 0xff, 0xff, 0xff, 0, 1, 0, 9, 0, 0, 0]) =
+    .ok (⟨2, [(⟨List.replicate 32 1, 0, [], 0xffffffff⟩, [[]])], [], 9⟩, []) := by decide
+example : Btc.decodeTx [2, 0, 0, 0, 0, 2, 0, 0, 0, 0, 0, 0] = .error .InvalidValue := by decide   -- unsupported segwit flag
+example : Btc.decodeTx [2, 0, 0, 0, 0, 1, 0, 0, 7, 0, 0, 0] = .ok (⟨2, [], [], 7⟩, []) := by decide   -- no inputs: marker / flag form
+
+/-- TxAddInput: decode ∘ encode = id on well-formed messages (`TxAddInput.wf`: the transaction fits the u16 length) -/
+theorem tx_add_input_roundtrip (m : Btc.TxAddInput) (h : m.wf = true) : Btc.decodeTxAddInput (Btc.encodeTxAddInput m) = .ok m :=
+  Btc.tx_add_input_roundtrip m h
+/-- whatever decodes is well-formed and re-encodes to bytes that decode to the same message -/
+theorem tx_add_input_reencode_stable (b : Bytes) (m : Btc.TxAddInput) (h : Btc.decodeTxAddInput b = .ok m) :
+    m.wf = true ∧ Btc.decodeTxAddInput (Btc.encodeTxAddInput m) = .ok m :=
+  ⟨Btc.tx_add_input_decode_wf h, Btc.tx_add_input_reencode_stable h⟩
+/-- NEVER READS PAST THE DECLARED LENGTH, never short of it: in an accepted message the bytes after the header are the u16 length, the
+    canonical encoding of the transaction returned — exactly `length` bytes — and then the tail that the rest schema decodes -/
+theorem tx_add_input_declared_length_exact (b : Bytes) (m : Btc.TxAddInput) (h : Btc.decodeTxAddInput b = .ok m) :
+    ∃ tail, b = encodeFixed Btc.txAddInputHeader m.hdr ++ (Btc.encodePrevtx m.prevtx ++ tail) ∧
+      Btc.txAddInputRest.decode tail = .ok m.rest := (Btc.tx_add_input_exact h).2
+/-- SURPLUS: a declared length that exceeds the transaction by any k > 0 — whether the surplus bytes exist or the message ends first — is
+    BadLengthDescriptor -/
+theorem tx_add_input_surplus_rejected (hv : List Val) (hhv : validFixed Btc.txAddInputHeader hv = true) (tx : Btc.Tx) (hw : tx.wf = true)
+    (k : Nat) (hk : 0 < k) (hL : (Btc.encodeTx tx).length + k < 2 ^ 16) (tail : Bytes) :
+    Btc.decodeTxAddInput (encodeFixed Btc.txAddInputHeader hv ++ (beEncode 2 ((Btc.encodeTx tx).length + k) ++ (Btc.encodeTx tx ++ tail))) =
+      .error .BadLengthDescriptor := Btc.tx_add_input_surplus hv hhv tx hw k hk hL tail
+/-- SHORT: a declared length that ends inside the transaction is never accepted -/
+theorem tx_add_input_short_rejected (hv : List Val) (hhv : validFixed Btc.txAddInputHeader hv = true) (tx : Btc.Tx) (hw : tx.wf = true)
+    (L' : Nat) (h0 : 0 < L') (hlt : L' < (Btc.encodeTx tx).length) (h16 : L' < 2 ^ 16) (tail : Bytes) :
+    ∃ e, Btc.decodeTxAddInput (encodeFixed Btc.txAddInputHeader hv ++ (beEncode 2 L' ++ (Btc.encodeTx tx ++ tail))) = .error e :=
+  Btc.tx_add_input_short hv hhv tx hw L' h0 hlt h16 tail
+example : Btc.decodeTxAddInput (List.replicate 32 7 ++ beEncode 8 1 ++ [0, 0] ++ [0, 0, 0, 5, 0, 0, 0, 6]) =
+    .ok ⟨[.bytes (List.replicate 32 7), .nat 1], none, ⟨[.nat 5, .nat 6], [none]⟩⟩ := by decide
+example : Btc.decodeTxAddInput (List.replicate 32 7 ++ beEncode 8 1 ++ [0, 12] ++ [2, 0, 0, 0, 0, 1, 0, 0, 7, 0, 0, 0] ++ [0, 0, 0, 5, 0, 0, 0, 6]) =
+    .ok ⟨[.bytes (List.replicate 32 7), .nat 1], some ⟨2, [], [], 7⟩, ⟨[.nat 5, .nat 6], [none]⟩⟩ := by decide
+example : Btc.decodeTxAddInput (List.replicate 32 7 ++ beEncode 8 1 ++ [0, 13] ++ [2, 0, 0, 0, 0, 1, 0, 0, 7, 0, 0, 0] ++ [0, 0, 0, 5, 0, 0, 0, 6]) =
+    .error .BadLengthDescriptor := by decide
+example : Btc.decodeTxAddInput (List.replicate 32 7 ++ beEncode 8 1 ++ [0, 11] ++ [2, 0, 0, 0, 0, 1, 0, 0, 7, 0, 0, 0] ++ [0, 0, 0, 5, 0, 0, 0, 6]) =
+    .error .ShortRead := by decide
+
+/-- TxSignatures: decode ∘ encode = id on well-formed messages (< 2^16 witnesses, each within the limits and of a size that fits its u16) -/
+theorem tx_signatures_roundtrip (m : Btc.TxSignatures) (h : m.wf = true) : Btc.decodeTxSignatures (Btc.encodeTxSignatures m) = .ok m :=
+  Btc.tx_signatures_roundtrip m h
+theorem tx_signatures_reencode_stable (b : Bytes) (m : Btc.TxSignatures) (h : Btc.decodeTxSignatures b = .ok m) :
+    m.wf = true ∧ Btc.decodeTxSignatures (Btc.encodeTxSignatures m) = .ok m :=
+  ⟨Btc.tx_signatures_decode_wf h, Btc.tx_signatures_reencode_stable h⟩
+/-- in an accepted message the witness vector is canonical: the declared count is the number of witnesses returned and every declared u16
+    length is exactly the size of its witness (`encodeWitnessVec` writes `witnessSize`), byte for byte -/
+theorem tx_signatures_declared_lengths_exact (b : Bytes) (m : Btc.TxSignatures) (h : Btc.decodeTxSignatures b = .ok m) :
+    ∃ tail, b = encodeFixed Btc.txSignaturesHeader m.hdr ++ (Btc.encodeWitnessVec m.witnesses ++ tail) ∧
+      Btc.txSignaturesRest.decode tail = .ok m.rest := (Btc.tx_signatures_exact h).2
+/-- a declared witness length that differs from the witness's size — in either direction — is BadLengthDescriptor -/
+theorem tx_signatures_wrong_length_rejected (w : List Bytes) (h : Btc.witnessWf w = true) (L : Nat) (hL : L < 2 ^ 16)
+    (hne : L ≠ Btc.witnessSize w) (r : Bytes) :
+    Btc.decodeSizedWitness (beEncode 2 L ++ (Btc.encodeWitness w ++ r)) = .error .BadLengthDescriptor :=
+  Btc.sized_witness_wrong_length w h L hL hne r
+example : Btc.decodeTxSignatures (List.replicate 64 7 ++ [0, 1, 0, 3, 1, 1, 0xaa]) =
+    .ok ⟨[.bytes (List.replicate 32 7), .bytes (List.replicate 32 7)], [[[0xaa]]], ⟨[], [none]⟩⟩ := by decide
+example : Btc.decodeTxSignatures (List.replicate 64 7 ++ [0, 1, 0, 4, 1, 1, 0xaa]) = .error .BadLengthDescriptor := by decide
+example : Btc.decodeTxSignatures (List.replicate 64 7 ++ [0, 1, 0, 2, 1, 1, 0xaa]) = .error .BadLengthDescriptor := by decide
+example : Btc.decodeTxSignatures (List.replicate 64 7 ++ [0, 2, 0, 3, 1, 1, 0xaa]) = .error .ShortRead := by decide
+
+/-- one `(u64, BlindedMessagePath)` entry round-trips, whatever follows it; what decodes is well-formed (a valid introduction node of
+    either kind, valid points, 1..255 hops) and as long as what was consumed -/
+theorem path_entry_roundtrip (p : Btc.PathEntry) (r : Bytes) (h : p.wf = true) :
+    Btc.decodePathEntry (Btc.encodePathEntry p ++ r) = .ok (p, r) := Btc.path_entry_roundtrip p r h
+theorem path_entry_decode_valid (b r : Bytes) (p : Btc.PathEntry) (h : Btc.decodePathEntry b = .ok (p, r)) :
+    p.wf = true ∧ b.length = (Btc.encodePathEntry p).length + r.length := Btc.path_entry_decode_spec h
+
+/-- RevokeAndACK: decode ∘ encode = id on well-formed messages (an empty vector is written as NO record and read back as empty) -/
+theorem revoke_and_ack_roundtrip (m : Btc.RevokeAndAck) (h : m.wf = true) : Btc.decodeRevokeAndAck (Btc.encodeRevokeAndAck m) = .ok m :=
+  Btc.revoke_and_ack_roundtrip m h
+theorem revoke_and_ack_reencode_stable (b : Bytes) (m : Btc.RevokeAndAck) (h : Btc.decodeRevokeAndAck b = .ok m) :
+    m.wf = true ∧ Btc.decodeRevokeAndAck (Btc.encodeRevokeAndAck m) = .ok m :=
+  ⟨Btc.revoke_and_ack_decode_wf h, Btc.revoke_and_ack_reencode_stable h⟩
+/-- its TLV loop rejects an unknown even type, and is total: the out-of-fuel answer is never taken (any larger fuel, same result) -/
+theorem revoke_and_ack_unknown_even (fuel : Nat) (last : Option Nat) (cur : Option (List Btc.PathEntry)) (typ len : Nat) (rest : Bytes)
+    (ht : typ < 2 ^ 64) (hl : len < 2 ^ 64) (hlast : lastLt last typ = true) (hne : typ ≠ btcRevokeAndAckTlv) (hev : typ % 2 = 0) :
+    Btc.raaLoop (fuel + 1) last cur (BigSize.encode typ ++ (BigSize.encode len ++ rest)) = .error .UnknownRequiredFeature :=
+  Btc.raaLoop_unknown_even fuel last cur typ len rest ht hl hlast hne hev
+theorem revoke_and_ack_decode_total (b : Bytes) (k : Nat) :
+    Btc.raaLoop (b.length + 1 + k) none none b = Btc.raaLoop (b.length + 1) none none b := Btc.decodeRevokeAndAck_fuel b k
+example : Btc.decodeRevokeAndAck (List.replicate 32 7 ++ List.replicate 32 8 ++ [2] ++ List.replicate 32 1) =
+    .ok ⟨[.bytes (List.replicate 32 7), .bytes (List.replicate 32 8), .bytes ([2] ++ List.replicate 32 1)], []⟩ := by decide
+-- one path: htlc id 5, introduction node = direction 1 + scid 9, blinding point, one hop with an empty payload
+example : Btc.decodeRevokeAndAck (List.replicate 32 7 ++ List.replicate 32 8 ++ [2] ++ List.replicate 32 1 ++ [0xfe, 0, 1, 0x27, 0x11, 86] ++
+      beEncode 8 5 ++ [1] ++ beEncode 8 9 ++ [2] ++ List.replicate 32 1 ++ [1] ++ [2] ++ List.replicate 32 1 ++ [0, 0]) =
+    .ok ⟨[.bytes (List.replicate 32 7), .bytes (List.replicate 32 8), .bytes ([2] ++ List.replicate 32 1)],
+      [⟨5, [1] ++ beEncode 8 9, .bytes ([2] ++ List.replicate 32 1), .pair (.pair (.bytes ([2] ++ List.replicate 32 1)) (.bytes [])) .unit⟩]⟩ := by decide
+example : Btc.decodePathEntry (beEncode 8 5 ++ [4]) = .error .InvalidValue := by decide        -- not an introduction-node byte: at once
+example : Btc.decodePathEntry (beEncode 8 5 ++ [3, 1]) = .error .ShortRead := by decide
+example : Btc.decodePathEntry (beEncode 8 5 ++ [0] ++ beEncode 8 9 ++ [2] ++ List.replicate 32 1 ++ [0]) = .error .InvalidValue := by decide   -- no hops
+
 /-! ## wire level -/
 
 /-- message type ids are pairwise distinct, and so are the names -/
@@ -734,6 +1028,14 @@ theorem wire_type_ids_distinct : (wireTypes.map (·.2)).Nodup ∧ (wireTypes.map
 theorem wire_dispatch_has_ids :
     (∀ n ∈ wireDispatch, (wireTypes.lookup n).isSome = true) ∧ (∀ p ∈ wireDispatchOff, (wireTypes.lookup p.1).isSome = true) := by
   decide
+
+/-- EVERY arm `wire::do_read` dispatches on (48 in the harness build) has a model decoder: a generated / hand-written `Schema`, a
+    `TailSchema`, or one of the custom decoders of Model/MsgSchemasHand, Model/MsgCustom, Model/MsgBitcoin.  Breaks when wire.rs gains an
+    arm for a message none of them covers. -/
+theorem wire_dispatch_all_modelled :
+    wireDispatch.length = 48 ∧
+    ∀ n ∈ wireDispatch, n ∈ generatedSchemas.map (·.name) ++ Hand.handSchemas.map (·.name) ++ Hand.tailSchemas.map (·.name) ++
+      Hand.customNames ++ Custom.customNames ++ Btc.btcNames := by decide
 
 /-- type id ++ payload reads back as the same message -/
 theorem wire_roundtrip (table : List (Nat × Schema)) (t : Nat) (s : Schema) (v : MsgVal)
